@@ -239,4 +239,29 @@ example : (dsToHdf [⟨"x_shared", 2, false, [none, some 0], [some 1, none], som
     = some [⟨"x_shared", 2, false, [none, some 0], [some 1, none], some [1, 0]⟩,
             ⟨"n", 1, true, [some 0], [some 5], none⟩] := by decide
 
+/-- **design_space_roundtrip (text).** On the row structure of the text format (one row per
+    component: name, lower bound, value or `None`, upper bound, type): `from_csv`'s grouping of
+    consecutive equal names, its `count`-based sizes, its "value is `None` as soon as one row says
+    so" rule and its type-of-the-first-row rule rebuild the design space exactly, for distinct
+    variable names (multi-character names included — rows are matched by whole name), sizes ≥ 1,
+    infinite bounds and missing values. (Number printing/parsing — `%.16g` and `genfromtxt` — is
+    outside the model: the harness compares those at 16 significant digits.) -/
+theorem design_space_csv_roundtrip (ds : DSpace) (nd : (ds.map (·.name)).Nodup)
+    (wf : ∀ v ∈ ds, DVarWF v) : dsFromRows (dsToRows ds) = some ds :=
+  dsCsv_roundtrip ds nd wf
+
+example : dsFromRows (dsToRows [⟨"x_shared", 2, false, [none, some 0], [some 1, none], some [1, 0]⟩,
+                                ⟨"x", 1, true, [some 0], [some 5], none⟩])
+    = some [⟨"x_shared", 2, false, [none, some 0], [some 1, none], some [1, 0]⟩,
+            ⟨"x", 1, true, [some 0], [some 5], none⟩] := by decide
+
+example : DVarWF ⟨"x_shared", 2, false, [none, some 0], [some 1, none], some [1, 0]⟩ :=
+  ⟨by decide, rfl, rfl, by intro l h; injection h with h; subst h; rfl⟩
+
+/-- Why `from_csv` insists on consecutive rows: a name that reappears after another variable is
+    rejected (the model returns `none` where the code raises `ValueError`). -/
+theorem csv_rejects_non_consecutive :
+    dsFromRows [⟨"x", none, none, none, false⟩, ⟨"y", none, none, none, false⟩,
+                ⟨"x", none, none, none, false⟩] = none := by decide
+
 end GV.C11
